@@ -61,8 +61,8 @@ class SplineDofs(NativeBounded):
 
 # candidate defect (notes/C12-c12b.md, D3): with exactly two elements in a periodic direction the two elements share TWO interfaces and
 # util.index(self.connectivity[jelem], ielem) picks the first one for both, so the wrong sides are merged.  Fails on the unchanged tree.
-PARKED = [C0Merge(True)]
+PARKED = []
 
 
 def contracts():
-    return [EdgeDofs('simplex'), EdgeDofs('tensor'), C0Merge(False), SplineDofs()]
+    return [EdgeDofs('simplex'), EdgeDofs('tensor'), C0Merge(False), SplineDofs(), C0Merge(True)]  # C0Merge(True): recorded KNOWN FINDING (carve-out: C0Merge(False))
